@@ -603,6 +603,9 @@ type EncCfg struct {
 	MinWidth int    `json:"min_width"`
 	// a width outside 0..5 handed to SetLevelOutputWidth AFTER TagWidth was set: the setter ignores it (the tag keeps TagWidth)
 	WidthAfter int `json:"width_after,omitempty"`
+	// the logger is given, with SetTimeFormat, the very layout the flags select anyway: the timestamp text is the same, and
+	// a time.Time ATTRIBUTE keeps its own fixed form (RFC3339Nano) whatever the layout of the timestamp is
+	SameLayout bool `json:"same_layout,omitempty"`
 	// a minimal width below 16 handed to SetMessageMinimalWidth AFTER MinWidth was set: ignored as well
 	MinAfter int `json:"min_after,omitempty"`
 }
@@ -687,6 +690,9 @@ func (rec EncRec) emit() [][]byte {
 		l.SetColorMode(true)
 	}
 	l.SetWriter(pool[1]).SetErrorWriter(pool[1]).SetUTCMode(true)
+	if c.SameLayout {
+		l.SetTimeFormat("15:04:05.000000Z07:00") // = tsText for fixedTime
+	}
 	rec.warmUp()
 	historyPrelude(len(rec.Msg)*13 + len(rec.Attrs)*5 + rec.Cfg.Level*3 + rec.Cfg.MinWidth)
 	events = nil
